@@ -498,7 +498,7 @@ func (c *Ctx) c12Eap(s *SuiteStat, in []byte, tag string, idx int, corr *[]corrC
 func propC20(c *Ctx) {
 	g := NewGen(c.seed)
 	s := c.suite("scribble-after-decode", "oracle",
-		"decode (and unprotect) from an exact buffer, snapshot every payload, overwrite the input buffer (all 0x00, all 0xFF, shifted by one, reversed), compare; accepted mutated inputs included; non-trivial = >= 1 payload")
+		"decode (and unprotect) from an exact buffer, snapshot every payload, overwrite the input buffer (all 0x00, all 0xFF, shifted by one, reversed), compare; then Encode the decoded message 12 times: identical bytes, payloads unchanged; accepted mutated inputs and datagrams carrying EAP-AKA' packets written without the library included; non-trivial = >= 1 payload")
 	s2 := c.suite("encode-pure-deterministic", "oracle",
 		"Encode N times: identical bytes, message payloads unchanged, writes into the returned buffer do not change the message or later encodings; protect: payload list replaced by one SK payload, header fields and the original payload objects unchanged; non-trivial = >= 1 payload")
 	n := c.n(1500, 80000)
@@ -506,6 +506,17 @@ func propC20(c *Ctx) {
 		var in []byte
 		if i%3 == 0 {
 			in = g.mutate(g.baseFor("msg"))
+		} else if i%7 == 1 {
+			// written by a peer: an EAP payload holding an EAP-AKA' packet produced without the library (any attribute
+			// order, attributes the library keeps without interpreting), between other payloads
+			els := []chainElem{{typ: 48, body: g.akaWire()}}
+			if g.chance(0.5) {
+				els = append([]chainElem{{typ: 40, body: g.bytes(1 + g.r.Intn(20))}}, els...)
+			}
+			if g.chance(0.5) {
+				els = append(els, chainElem{typ: 43, body: g.bytes(1 + g.r.Intn(20))})
+			}
+			in = encodeHeaderRef(g.header(), els[0].typ, encodeChainRef(els))
 		} else {
 			in = g.baseFor("msg")
 		}
@@ -584,6 +595,28 @@ func (c *Ctx) c20Scribble(s *SuiteStat, in []byte, idx int, k *saKeys, recvRole 
 			c.violate(Violation{Suite: s.Name, Kind: "property", Index: idx, Class: "alias-input",
 				Desc: "a decoded payload changed when the input buffer was overwritten", Input: line, Expected: clip(r.val), Actual: clip(after)})
 			return
+		}
+	}
+	// encoding the DECODED message: pure and deterministic as well (12 encodings)
+	if k == nil {
+		var first []byte
+		for rep := 0; rep < 12; rep++ {
+			b, err := m.Encode()
+			if err != nil {
+				break
+			}
+			if rep == 0 {
+				first = append([]byte{}, b...)
+			} else if !bytes.Equal(first, b) {
+				c.violate(Violation{Suite: s.Name, Kind: "property", Index: idx, Class: "encode-nondeterministic-decoded",
+					Desc: fmt.Sprintf("encoding #%d of a decoded, unmodified message differs from its first encoding", rep+1), Input: line, Expected: hx(first), Actual: hx(b)})
+				return
+			}
+			if after := renderPayloads(m.Payloads).String(); after != r.val {
+				c.violate(Violation{Suite: s.Name, Kind: "property", Index: idx, Class: "encode-mutates-decoded",
+					Desc: "Encode altered a decoded message", Input: line, Expected: clip(r.val), Actual: clip(after)})
+				return
+			}
 		}
 	}
 }
